@@ -52,7 +52,15 @@ pub trait Record {
     fn variant_span(&self, header: &Header) -> io::Result<usize> {
         let start = self.variant_start().transpose()?.unwrap_or(Position::MIN);
         let end = self.variant_end(header)?;
-        Ok(usize::from(end) - usize::from(start) + 1)
+        usize::from(end)
+            .checked_sub(usize::from(start))
+            .map(|n| n + 1)
+            .ok_or_else(|| {
+                io::Error::new(
+                    io::ErrorKind::InvalidData,
+                    "variant end precedes variant start",
+                )
+            })
     }
 
     /// Resolves the variant end position.
